@@ -49,6 +49,9 @@ CHECKS = {
  "C14": dict(engine="enum", technique="bounded-exhaustive enumeration of collector subsets (incl. same-name different-kind collectors) x all orders on the real Registry; payload kind vs. declared type",
    text="Over all subsets (size <=3, thorough 4) of a 12-collector pool incl. three same-name collectors of different kinds, all registration and iteration orders: every sample must carry exactly the payload of its family's declared type and the type must be order-independent. The pinned tree violates this for names registered under >=2 kinds (known finding F8, no small safe repair); any other violation is reported.",
    note="known finding keyed by 'family name registered under >=2 metric kinds'", ref="6 C14"),
+ "C15": dict(engine="enum", technique="bounded-exhaustive enumeration of descriptors over adversarial pools, all pairs compared by grouping, all const-label map iteration orders realised",
+   text="All ~25k descriptors over boundary-shifting name/value/help pools with <=2 constant and <=2 variable labels are built through Desc::new (constant-label map in every iteration order) and through Opts (every insertion order); id / dim_hash equality must coincide with structural-key equality over all pairs (grouping both ways), rebuilds must agree.",
+   note="pool strings only; genuine 64-bit collisions exempt", ref="6 C15"),
 }
 
 NOT_YET = "check not built yet in this round; planned per DESIGN.md section 6"
